@@ -223,7 +223,11 @@ class Linker:
         for symbol in obj.symbols:
             # Shift symbol value if required:
             if symbol.defined:
-                value = section_offsets[symbol.section] + symbol.value
+                if symbol.section is None:
+                    # Absolute symbol (no section), its value is not shifted:
+                    value = symbol.value
+                else:
+                    value = section_offsets[symbol.section] + symbol.value
                 section = symbol.section
             else:
                 value = section = None
